@@ -10,7 +10,9 @@ package main
 import (
 	"encoding/hex"
 	"encoding/json"
+	"fmt"
 	"net"
+	"os"
 	"sync"
 	"time"
 
@@ -86,7 +88,7 @@ type fuzzOut struct {
 	Sent       int    `json:"sent"`
 }
 
-func fuzzOne(f *fixture, c fuzzCase) fuzzOut {
+func fuzzOne(f *fixture, c fuzzCase, caseIndex int) fuzzOut {
 	out := fuzzOut{FaultIndex: -1}
 	fatalMsg.Store("")
 	var wg sync.WaitGroup
@@ -163,6 +165,11 @@ func fuzzOne(f *fixture, c fuzzCase) fuzzOut {
 	}
 	ref0 := ref()
 	for i, h := range c.Datagrams {
+		// a fault that takes the whole process down (a panic in a goroutine nobody recovers) leaves no result: the
+		// datagram under way is noted in a side file first
+		if pf := os.Getenv("VHARNESS_PROGRESS"); pf != "" {
+			_ = os.WriteFile(pf, []byte(fmt.Sprintf("{\"case\": %d, \"datagram\": %d}", caseIndex, i)), 0o644)
+		}
 		sendHex(h)
 		out.Sent++
 		alive := f.barrierRT(2 * time.Second)
@@ -198,8 +205,8 @@ func init() {
 		}
 		defer f.close()
 		var outs []fuzzOut
-		for _, c := range cases {
-			outs = append(outs, fuzzOne(f, c))
+		for ci, c := range cases {
+			outs = append(outs, fuzzOne(f, c, ci))
 		}
 		return map[string]interface{}{"prefix": f.prefix, "cases": outs}, nil
 	}
